@@ -574,24 +574,25 @@ def cases_for(prop, tier, seed, pools, toks, ck):
     cases = []
     L = gen.LANGS
     per = lambda q, t: sizes(tier, q, t)
+    heavy = lambda q, t: q if tier == "quick" else t        # families that are not multiplied when a quick run is widened
     if prop == "C03":
         for lang in L:
             cases += gen.gen_prefix_cases(lang, rnd, pools[lang], toks, per(14, 400))
             # a title of a dozen words (more grams and more word characters than any record of the bundled data set)
-            longs = [" ".join(rnd.sample(pools[lang], 9))[:196].rstrip() for _k in range(per(1, 8))]
+            longs = [" ".join(rnd.sample(pools[lang], 9))[:196].rstrip() for _k in range(heavy(1, 8))]
             more_toks(ck, toks, [(lang, t) for t in longs], "pre_c03")
             cases += gen.gen_prefix_cases(lang, rnd, longs, toks, len(longs))
-        cases += gen.gen_huge_store_cases("C03", rnd.choice(L), rnd, pools["en"], per(1, 6))
+        cases += gen.gen_huge_store_cases("C03", rnd.choice(L), rnd, pools["en"], heavy(1, 6))
     elif prop == "C04":
         for lang in L:
             bw = gen.three_letter_words(lang, rnd, per(3, 40))
             # titles of a dozen words (listings with the whole description in the title): far more grams than any record of
             # the bundled data set has
-            for _k in range(per(2, 20)):
+            for _k in range(heavy(2, 20)):
                 bw.append(" ".join(rnd.sample(pools[lang], 8))[:190].rstrip())
             more_toks(ck, toks, [(lang, t) for t in bw], "pre_c04")
             cases += gen.gen_edit_cases(lang, rnd, pools[lang], toks, per(6, 150), per_pos=per(1, 3), extra=bw)
-        cases += gen.gen_huge_store_cases("C04", rnd.choice(L), rnd, pools["en"], per(1, 6))
+        cases += gen.gen_huge_store_cases("C04", rnd.choice(L), rnd, pools["en"], heavy(1, 6))
     elif prop == "C13":
         for lang in L:
             echo = gen.compound_echo_titles(rnd, pools[lang], per(8, 60))
@@ -615,14 +616,14 @@ def cases_for(prop, tier, seed, pools, toks, ck):
             cases += gen.gen_store_relations("C06", lang, rnd, pools[lang], toks, per(4, 120))
             cases += gen.gen_store_relations("C06", lang, rnd, pools[lang], toks, per(1, 30), big=True)
             cases += gen.gen_family_cases("C06", lang, rnd, per(2, 40))
-        cases += gen.gen_huge_store_cases("C06", rnd.choice(L), rnd, pools["en"], per(1, 6))
+        cases += gen.gen_huge_store_cases("C06", rnd.choice(L), rnd, pools["en"], heavy(1, 6))
     elif prop == "C07":
         for lang in L:
             cases += gen.gen_store_relations("C07", lang, rnd, pools[lang], toks, per(4, 120))
             cases += gen.gen_store_relations("C07", lang, rnd, pools[lang], toks, per(1, 20), big=True)
             cases += gen.gen_vocab_cases("C07", lang, rnd, pools[lang], toks, per(120, 1500))
             cases += gen.gen_family_cases("C07", lang, rnd, per(6, 100))
-        cases += gen.gen_huge_store_cases("C07", rnd.choice(L), rnd, pools["en"], per(1, 6))
+        cases += gen.gen_huge_store_cases("C07", rnd.choice(L), rnd, pools["en"], heavy(1, 6))
     elif prop in ("C10", "C12"):
         for lang in L:
             cases += gen.gen_histories(prop, lang, rnd, pools[lang], toks, per(12, 400), length=per(14, 24))
